@@ -21,7 +21,8 @@ def scenario_trees(rng):
     big = mk(rng, 700_000)          # several 256 KiB transfer chunks
     mid = mk(rng, 300_000)
     src = {"big.bin": big, "mid.bin": mid, "small.txt": b"small new\n", "empty": b"", "d/nested.txt": b"nested new\n", "same.txt": b"unchanged"}
-    dst = {"big.bin": mk(rng, 650_000), "small.txt": b"small old version\n", "d/nested.txt": b"old", "same.txt": b"unchanged",
+    # mid.bin: an older version of EXACTLY the same length (only the mtime tells the quick check it differs)
+    dst = {"big.bin": mk(rng, 650_000), "mid.bin": mk(rng, 300_000), "small.txt": b"small old version\n", "d/nested.txt": b"old", "same.txt": b"unchanged",
            "outside-plan.txt": b"must stay", "stale.txt": b"stale"}
     return src, dst
 
